@@ -549,7 +549,7 @@ def run(ctx):
                 ctx.mismatch('comb-helpers', d, a, b)
 
     # ================================================================= programs stream
-    n_prog = 1600 if quick else 50000
+    n_prog = 1600 if quick else 30000
     n_shrunk, max_shrunk = 0, (40 if quick else 200)
     for pi in range(n_prog):
         gen = G.ProgGen(rng)
